@@ -78,8 +78,12 @@ class Inliner:
                     return ("func", f.attr, node)
                 first = node.args.args[0].arg if node.args.args else None
                 if "classmethod" in decos:
-                    if first != "cls" or f.value.id != "cls":
+                    if first != "cls":
                         return None
+                    if f.value.id != "cls":
+                        # called through an instance: `cls` is the
+                        # instance's class, written here as the receiver
+                        return ("method:" + f.value.id, f.attr, node)
                 elif first != "self" or f.value.id != "self":
                     return None
                 return ("method", f.attr, node)
@@ -145,6 +149,10 @@ class Inliner:
         if r is None:
             return None
         how, name, fn = r
+        recv_alias = None
+        if how.startswith("method:"):
+            recv_alias = how.split(":", 1)[1]
+            how = "method"
         if name in self.primitives or name in stack:
             return None
         is_async = isinstance(fn, ast.AsyncFunctionDef)
@@ -206,6 +214,9 @@ class Inliner:
                     locals_.add(n.name)
         ren = _Renamer(locals_, suffix)
         body = [ren.visit(s) for s in body]
+        if recv_alias is not None:
+            first = fn.args.args[0].arg
+            body = [_Renamer2(first, recv_alias).visit(s) for s in body]
         pre = []
         for p in params:
             b = ast.copy_location(ast.Assign(
@@ -273,6 +284,8 @@ class Inliner:
                 if r is None:
                     return n
                 how, name, fn = r
+                if how.startswith("method:"):
+                    return n
                 if name in inl.primitives or name in stack or \
                         isinstance(fn, ast.AsyncFunctionDef) or \
                         inl._is_gen(fn) or not inl._inlinable(fn):
@@ -464,6 +477,18 @@ class Inliner:
                     ast.UnaryOp(ast.Not(), nm) if neg else nm, s.test)
                 return [b, s]
         return [s]
+
+
+class _Renamer2(ast.NodeTransformer):
+    """Rename one name (the `cls` of a classmethod called on an instance)."""
+
+    def __init__(self, old, new):
+        self.old, self.new = old, new
+
+    def visit_Name(self, n):
+        if n.id == self.old:
+            return ast.copy_location(ast.Name(self.new, n.ctx), n)
+        return n
 
 
 class _Renamer(ast.NodeTransformer):
